@@ -102,7 +102,9 @@ def gen_history(rng, adversarial=False, maxfrag=5):
     nseq = rng.choice([1, 1, 2, 2, 3, 4])
     seqids = rng.sample([0, 1, 2, 7, 42, 2**32, 2**64 - 1, rng.randrange(2**64)], nseq)
     if nseq >= 2 and rng.random() < 0.3:     # two sequences whose ids agree in their low bits
-        seqids[1] = (seqids[0] + 2**rng.choice([8, 16, 31, 32, 48, 63])) % 2**64
+        alias = (seqids[0] + 2**rng.choice([8, 16, 31, 32, 48, 63])) % 2**64
+        if alias not in seqids:               # (two streams under one id would be one sequence with two headers)
+            seqids[1] = alias
     streams = []
     for sid in seqids:
         n = rng.choice([1, 2, 2, 3, 3, 4, maxfrag])
